@@ -4,7 +4,8 @@
 From Coq Require Import List NArith Bool PeanoNat.
 From V.common Require Import Wire.
 From V.Mgr Require Model.
-From V.C07 Require Import Model.
+From V.Ts Require Import Report.
+From V.C07 Require Import Model Block.
 Import ListNotations.
 Open Scope N_scope.
 
@@ -292,6 +293,7 @@ Definition estep (n : nat) (w : world) (s : N * (N * (N * N))) : world * (N * ev
   | 15 => do_force n a (N.to_nat b) w
   | 16 => do_cut n w
   | 17 => do_idle n w
+  | 20 => do_idle n w      (* idle expiry while the other side keeps opening refused substreams *)
   | 18 => do_shutdown n w
   | _ => (w, (2, ([], [])))
   end.
@@ -328,9 +330,113 @@ Definition p_estep : parser (N * (N * (N * N))) :=
 
 Definition decode_e2e (l : list N) : option (nat * (N * list (N * (N * (N * N))))) :=
   pall (let* n := pN in let* ka := pN in let* steps := plist p_estep in
-        (* ka: bit 0 = short keep-alive, bits 1-2 = transport (0 TCP, 1 WebSocket, 2 QUIC); the model
-           is the same for all of them *)
-        if (1 <=? n) && (n <=? 4) && (ka <? 6) then pret (N.to_nat n, (ka, steps)) else pfail) l.
+        (* ka: bit 0 = short keep-alive, bits 1-2 = transport (0 TCP, 1 WebSocket, 2 QUIC), bit 3 =
+           TCP_NODELAY, bit 4 = two worker threads per node; the model is the same for all of them *)
+        if (1 <=? n) && (n <=? 4) && (ka <? 32) && ((ka / 2) mod 4 <? 3) then pret (N.to_nat n, (ka, steps)) else pfail) l.
+
+(* ------------------------------------------------------------------------------------------ *)
+(* kind 2: back-pressure. Real ProtocolSets (one per connection) report into protocol channels of
+   a small capacity that are drained only when the case says so; a report that finds no room
+   waits, and with it its connection. After every operation every parked report that can proceed
+   does (the harness runs its runtime until idle): BResume for every connection.
+   case  = 2 n cap nops (op a b)*     op: 1 accept connection a | 2 the loop of a handles an event:
+           b = 0 the connection ended, b = i+1 an outbound substream of protocol i failed | 4 protocol
+           a receives b events | 5 protocol a exits
+   trace = 1 (rc  nout (kind conn)*  ngot (kind conn)*  (qlen)*n  nconn (conn phase)* )*
+           out kind: 1 accept future resolved, 2 manager told closed; got kind: 1 established 2 closed
+           5 substream open failure; phase: 0 accept waits 1 running 2 substream report waits
+           3 closed report waits 4 gone *)
+
+Definition phase_code (p : phase) : N :=
+  match p with PWaitEst => 0 | PRun => 1 | PWaitSub => 2 | PWaitClosed => 3 | PDone => 4 end.
+
+Definition enc_item (it : item) : list N :=
+  match it with
+  | IEst c => [1; c] | IClosed c => [2; c] | IOpened c _ => [3; c] | IFailure c _ => [5; c]
+  end.
+Definition enc_bout (o : bout) : list N :=
+  match o with OAccepted c => [1; c] | OMgrClosed c => [2; c] end.
+
+Definition conn_ids (s : bsys) : list N := sort_by (fun x => x) (map fst (s_conns s)).
+
+Definition resume_all (s : bsys) : bsys * list bout :=
+  fold_left (fun acc c => let '(s1, o1) := bstep (fst acc) (BResume c) in (s1, snd acc ++ o1))
+            (conn_ids s) (s, []).
+
+Definition bout_key (o : bout) : N := match o with OAccepted c => 2 * c | OMgrClosed c => 2 * c + 1 end.
+
+Definition block_dump (s : bsys) : list N :=
+  map (fun ch => N.of_nat (length (rq ch))) (s_ch s) ++
+  N.of_nat (length (s_conns s)) ::
+  flat_map (fun c => match find_c c (s_conns s) with
+                     | Some b => [c; phase_code (b_ph b)] | None => [] end) (conn_ids s).
+
+Definition all_del (s : bsys) : list nat := map (fun ch => length (rdel ch)) (s_ch s).
+
+Definition bop_ev (o : N * (N * N)) : option bev :=
+  let '(op, (a, b)) := o in
+  match op with
+  | 1 => Some (BAccept a)
+  | 2 => Some (BLoop a (if b =? 0 then EYamux YEof else ENeg (NegFail (N.to_nat (b - 1)))))
+  | 4 => Some (BRecv (N.to_nat a) (N.to_nat b))
+  | 5 => Some (BDie (N.to_nat a))
+  | _ => None
+  end.
+
+(* was the operation applicable? (the harness cannot start a report on a connection that is
+   parked, gone or unknown, nor accept a known connection) *)
+Definition bop_rc (s : bsys) (o : N * (N * N)) : N :=
+  let '(op, (a, b)) := o in
+  match op with
+  | 1 => match find_c a (s_conns s) with Some _ => 2 | None => 0 end
+  | 2 => match find_c a (s_conns s) with
+         | Some bc => match b_ph bc with PRun => 0 | _ => 2 end
+         | None => 2
+         end
+  | _ => 0
+  end.
+
+Definition bstep_trace (s : bsys) (o : N * (N * N)) : bsys * list N :=
+  match bop_ev o with
+  | None => (s, [2])
+  | Some e =>
+      let rc := bop_rc s o in
+      let '(s1, o1) := bstep s e in
+      let '(s2, o2) := resume_all s1 in
+      let outs := sort_by bout_key (o1 ++ o2) in
+      let got := match e with
+                 | BRecv p _ => skipn (nth p (all_del s) O) (rdel (nth p (s_ch s2) (mkRc [] [] [] [])))
+                 | _ => []
+                 end in
+      (s2, rc :: N.of_nat (length outs) :: flat_map enc_bout outs ++
+           N.of_nat (length got) :: flat_map enc_item got ++ block_dump s2)
+  end.
+
+Fixpoint brun_trace (s : bsys) (ops : list (N * (N * N))) : list N :=
+  match ops with
+  | [] => []
+  | o :: r => let '(s1, t) := bstep_trace s o in t ++ brun_trace s1 r
+  end.
+
+Definition p_bop (n : nat) : parser (N * (N * N)) :=
+  let* op := pN in let* a := pN in let* b := pN in
+  if ((op =? 1) && (a <? 1000)) ||
+     ((op =? 2) && (a <? 1000) && (b <=? N.of_nat n)) ||
+     ((op =? 4) && (a <? N.of_nat n) && (b <? 1000)) ||
+     ((op =? 5) && (a <? N.of_nat n))
+  then pret (op, (a, b)) else pfail.
+
+Definition decode_block (l : list N) : option (nat * (nat * list (N * (N * N)))) :=
+  match l with
+  | n :: cap :: r =>
+      if (1 <=? n) && (n <=? 6) && (1 <=? cap) && (cap <=? 8) then
+        match pall (plist (p_bop (N.to_nat n))) r with
+        | Some ops => Some (N.to_nat n, (N.to_nat cap, ops))
+        | None => None
+        end
+      else None
+  | _ => None
+  end.
 
 (* ------------------------------------------------------------------------------------------ *)
 
@@ -346,6 +452,11 @@ Definition run_case (l : list N) : list N :=
       | Some (n, (_, steps)) =>
           let '(w, t) := erun n (world_init n) steps in
           1 :: t ++ [final_dial n (wa w) PB; final_dial n (wb w) PA]
+      | None => [0]
+      end
+  | 2 :: r =>
+      match decode_block r with
+      | Some (n, (cap, ops)) => 1 :: brun_trace (binit n cap) ops
       | None => [0]
       end
   | _ => [0]
@@ -472,7 +583,7 @@ Definition estep_ok (n : nat) (p : pst) (s : N * (N * (N * N))) (rc : N) (la lb 
         (if ((op =? 11) || (op =? 14)) && p_bup p && negb appa0 && negb appb0
          then (rc =? 0) && appa && appb else true) &&
         (* termination causes terminate *)
-        (if ((op =? 15) && (rc =? 0)) || (op =? 16) || (op =? 17) || ((op =? 18) && (rc =? 0))
+        (if ((op =? 15) && (rc =? 0)) || (op =? 16) || (op =? 17) || (op =? 20) || ((op =? 18) && (rc =? 0))
          then negb appa && (negb bup1 || negb appb) else true) in
       if ok then Some (mkP (ca, cb) al1 bup1) else None
   | _, _ => None
@@ -492,6 +603,62 @@ Fixpoint erun_ok (n : nat) (p : pst) (steps : list (N * (N * (N * N))))
       end
   | _, _ => None
   end.
+
+(* -- kind 2 -- *)
+Definition p_pair : parser (N * N) := let* a := pN in let* b := pN in pret (a, b).
+(* rc, outputs (kind, conn), received (kind, conn), queue lengths, (conn, phase) *)
+Definition p_bres (n : nat) : parser (N * (list (N * N) * (list (N * N) * (list N * list (N * N))))) :=
+  let* rc := pN in let* outs := plist p_pair in let* got := plist p_pair in
+  let* ql := prep n pN in let* cs := plist p_pair in pret (rc, (outs, (got, (ql, cs)))).
+
+Definition pair_eqb (a b : N * N) : bool := (fst a =? fst b) && (snd a =? snd b).
+Definition count_pair (x : N * N) (l : list (N * N)) : nat := length (filter (pair_eqb x) l).
+
+(* what protocol p received about connection c, in order: established, then closed, each at most
+   once, nothing after closed *)
+Fixpoint recv_ok (seen_est seen_closed : list N) (l : list (N * N)) : bool :=
+  match l with
+  | [] => true
+  | (k, c) :: r =>
+      if existsb (N.eqb c) seen_closed then false
+      else if k =? 1 then negb (existsb (N.eqb c) seen_est) && recv_ok (c :: seen_est) seen_closed r
+      else if k =? 2 then existsb (N.eqb c) seen_est && recv_ok seen_est (c :: seen_closed) r
+      else existsb (N.eqb c) seen_est && recv_ok seen_est seen_closed r
+  end.
+
+Definition block_ok (n : nat) (ops : list (N * (N * N)))
+           (rs : list (N * (list (N * N) * (list (N * N) * (list N * list (N * N)))))) : bool :=
+  let outs_upto := fun k => flat_map (fun r => fst (snd r)) (firstn k rs) in
+  let all_outs := outs_upto (length rs) in
+  let conns := match last rs (0, ([], ([], ([], [])))) with (_, (_, (_, (_, cs)))) => cs end in
+  let ql_end := match last rs (0, ([], ([], ([], [])))) with (_, (_, (_, (ql, _)))) => ql end in
+  let killed := flat_map (fun o => if fst o =? 5 then [fst (snd o)] else []) ops in
+  let got_of := fun p : N => flat_map (fun or => if (fst (fst or) =? 4) && (fst (snd (fst or)) =? p)
+                                              then fst (snd (snd (snd or))) else [])
+                                   (combine ops rs) in
+  (* the manager is told at most once per connection, the accept resolves at most once *)
+  forallb (fun c => Nat.leb (count_pair (2, fst c) all_outs) 1 && Nat.leb (count_pair (1, fst c) all_outs) 1) conns &&
+  (* told closed only by a task that is gone; never while its closed report is still waiting *)
+  forallb (fun k =>
+     match nth_error rs k with
+     | Some (_, (outs, (_, (_, cs)))) =>
+         forallb (fun o => negb (fst o =? 2) || existsb (pair_eqb (snd o, 4)) cs) outs &&
+         forallb (fun cp => negb (snd cp =? 3) || Nat.eqb (count_pair (2, fst cp) (outs_upto (S k))) 0) cs
+     | None => true
+     end) (seq 0 (length rs)) &&
+  (* every protocol sees a well-formed stream per connection *)
+  forallb (fun p => recv_ok [] [] (got_of (N.of_nat p))) (seq 0 n) &&
+  (* when everything has been received at the end, nobody is left waiting, every task that is gone
+     has told the manager exactly once, and every protocol still running was told closed *)
+  (if forallb (N.eqb 0) ql_end then
+     forallb (fun cp => negb ((snd cp =? 0) || (snd cp =? 2) || (snd cp =? 3)) &&
+                        (if snd cp =? 4 then Nat.eqb (count_pair (2, fst cp) all_outs) 1 else true) &&
+                        Nat.eqb (count_pair (1, fst cp) all_outs) 1 &&
+                        (if snd cp =? 4 then
+                           forallb (fun p => existsb (N.eqb (N.of_nat p)) killed ||
+                                             Nat.eqb (count_pair (2, fst cp) (got_of (N.of_nat p))) 1) (seq 0 n)
+                         else true)) conns
+   else true).
 
 Definition pst_init (n : nat) : pst :=
   mkP (repeat false (n + 2), repeat false (n + 2)) (repeat true (n + 3), repeat true (n + 3)) true.
@@ -524,9 +691,19 @@ Definition prop_ok (case trace : list N) : bool :=
           end
       | None => false
       end
+  | 2 :: r, 1 :: body =>
+      match decode_block r with
+      | Some (n, (_, ops)) =>
+          match pall (prep (length ops) (p_bres n)) body with
+          | Some rs => block_ok n ops rs
+          | None => false
+          end
+      | None => false
+      end
   | _, [0] => match case with
               | 0 :: r => match decode_unit r with None => true | Some _ => false end
               | 1 :: r => match decode_e2e r with None => true | Some _ => false end
+              | 2 :: r => match decode_block r with None => true | Some _ => false end
               | _ => true
               end
   | _, _ => false
